@@ -260,6 +260,10 @@ func (e *Encoder) SetCReg(adj uint8, incr bool, c ivg.Color) {
 		adj = 7
 	}
 
+	if incr {
+		// Track the decoder's CSEL++ so that CSel() stays in step with it.
+		e.cSel = (e.cSel + 1) & 0x3f
+	}
 	if x, ok := c.Encode1(); ok {
 		e.buf = append(e.buf, adj|0x80, x)
 		return
@@ -297,6 +301,11 @@ func (e *Encoder) SetNReg(adj uint8, incr bool, f float32) {
 			e.err = errInvalidIncrementingAdjustment
 		}
 		adj = 7
+	}
+
+	if incr {
+		// Track the decoder's NSEL++ so that NSel() stays in step with it.
+		e.nSel = (e.nSel + 1) & 0x3f
 	}
 
 	// Try three different encodings and pick the shortest.
